@@ -88,6 +88,18 @@ def own_controls(ctx, rep):
         res[fname] = (bool(own.leak_paths(fn, a)), bool(own.unchecked_derefs(fn, a)))
     if not (res["leak_bad"][0] and not res["leak_ok"][0] and res["deref_bad"][1] and not res["deref_ok"][1]):
         _fail(rep, "own", "ownership control: %s" % res)
+    from .nullstate import NullState
+    from .rules import stores_to_field
+    cg = CallGraph(mod)
+    sp = mod.fn("set_path")
+    ns_res = {}
+    for ctor in ("ctor_ok", "ctor_bad"):
+        ns = NullState(mod, cg, "Obj", "path")
+        ns.analyse(mod.fn(ctor), "N")
+        st = stores_to_field(mod, "Obj", "path", [sp])
+        ns_res[ctor] = sorted(ns.at_store.get((sp.name, st[0].id), {})) if st else None
+    if ns_res != {"ctor_ok": ["N"], "ctor_bad": ["M"]}:
+        _fail(rep, "nullstate", "NULL-by-construction control: %s" % ns_res)
     rep.extra.setdefault("positive_controls", {})["own"] = "fired on the violating twins, silent on the conforming ones"
 
 
